@@ -394,6 +394,22 @@ func Fail(t *testing.T, sub, msg string, c any) {
 	t.Errorf("%s: %s", sub, msg)
 }
 
+// FuzzSave writes the replay envelope of an input a fuzz target's oracle
+// rejected (see FuzzFail); for targets built with rapid.MakeFuzz, which have
+// no *testing.T of their own.
+func FuzzSave(sub, msg string, c any) {
+	dir := os.Getenv("VERIF_FUZZ_DIR")
+	if dir == "" {
+		return
+	}
+	raw := mustRaw(c)
+	h := fnv.New64a()
+	_, _ = h.Write(raw)
+	b, _ := json.MarshalIndent(Envelope{Sub: sub, Case: raw, Note: msg}, "", " ")
+	_ = os.MkdirAll(dir, 0o755)
+	_ = os.WriteFile(filepath.Join(dir, fmt.Sprintf("%s-%016x.json", sub, h.Sum64())), b, 0o644)
+}
+
 // FuzzFail is called by a native fuzz target whose oracle rejected an input:
 // the case is written as an ordinary replay envelope into $VERIF_FUZZ_DIR (the
 // driver turns each file into a VIOLATION line), then the fuzz run is failed.
